@@ -252,10 +252,10 @@ fn states() -> Vec<Tree> {
     v
 }
 
-/// spellings of the sandbox-relative path `p` (e.g. "/a/b"); cwd is <SB>/a, HOME = <SB>, V = "a"
-fn spellings(p: &str, sb: &str) -> Vec<(String, &'static str)> {
+/// spellings of the sandbox-relative path `p` (e.g. "/a/b"); cwd is given, HOME = <SB>, V = "a"
+fn spellings(p: &str, sb: &str, cwd: &str) -> Vec<(String, &'static str)> {
     let abs = reroot(sb, p);
-    let rel_to_cwd = ref_relative(&abs, &format!("{}/a", sb));
+    let rel_to_cwd = ref_relative(&abs, cwd);
     let rel = if rel_to_cwd.is_empty() { ".".to_string() } else { rel_to_cwd };
     let mut v = vec![
         (abs.clone(), "abs"),
@@ -329,6 +329,10 @@ fn ops_for(p: &str) -> Vec<Op> {
         Op::Copy(s("/@/a"), p.clone()),
         Op::CopyB(p.clone(), s("/@/q"), CopyMode::All(0o700), false),
         Op::Symlink(p.clone(), s("/@/a")),
+        // the link target: relative targets are documented to resolve against the link's directory,
+        // so only the absolute spellings are compared in this position (see worker_spell)
+        Op::Symlink(s("/@/q"), p.clone()),
+        Op::CopyB(s("/@/a"), p.clone(), CopyMode::All(0o700), false),
     ]
 }
 
@@ -344,6 +348,139 @@ fn same_outcome(a: &Outcome, b: &Outcome) -> bool {
     }
 }
 
+// ---------------------------------------------------------------------------------------------
+// Part (iii): the builder calls chmod_b / chown_b take their path when they are called: a builder
+// made from a spelling and one made from abs(spelling) stay interchangeable when the cwd moves
+// between the call and exec(), and a spelling abs() rejects is rejected by the call itself.
+// (copy_b is left out: the crate's own test_copy_b pins that it accepts any string and reports path
+// errors from exec(), so its resolution point is exec() by the repository's own definition.)
+// ---------------------------------------------------------------------------------------------
+#[derive(PartialEq, Debug, Clone)]
+struct Deferred {
+    created: Result<(), String>,
+    exec: Option<Result<(), String>>,
+}
+
+fn deferred_run<V: VirtualFileSystem>(vfs: &V, which: &str, arg: &str, move_cwd: &dyn Fn()) -> Deferred {
+    match which {
+        "chmod_b" => match vfs.chmod_b(arg) {
+            Err(e) => Deferred { created: Err(err_kind(&e)), exec: None },
+            Ok(b) => {
+                move_cwd();
+                Deferred { created: Ok(()), exec: Some(b.all(0o600).exec().map_err(|e| err_kind(&e))) }
+            },
+        },
+        _ => match vfs.chown_b(arg) {
+            Err(e) => Deferred { created: Err(err_kind(&e)), exec: None },
+            Ok(b) => {
+                move_cwd();
+                Deferred { created: Ok(()), exec: Some(b.owner(5, 7).exec().map_err(|e| err_kind(&e))) }
+            },
+        },
+    }
+}
+
+fn deferred_builders(w: &mut WorkerCtx, sb: &Sandbox, do_stdfs: bool) {
+    let sbr = sb.root.clone();
+    let mut st = Tree::new();
+    st.insert("/a", Node::dir());
+    st.insert("/a/f", Node::file(b"1"));
+    st.insert("/b", Node::dir());
+    st.insert("/b/f", Node::file(b"2"));
+    let (cwd1, cwd2) = (reroot(&sbr, "/a"), reroot(&sbr, "/b"));
+    let spellings: Vec<(String, &str)> = vec![
+        (s("f"), "relative"),
+        (s("./f"), "dot-relative"),
+        (s("../a/f"), "relative-dotdot"),
+        (s("."), "cwd"),
+        (format!("{}/a/f", sbr), "abs"),
+        (format!("{}//a/./f/", sbr), "unclean-abs"),
+        (s("~/a/f"), "home"),
+        (format!("{}/$V/f", sbr), "variable"),
+        (s(""), "empty"),
+        (s("~~"), "invalid-expansion"),
+        (s("$"), "invalid-variable"),
+    ];
+    let stdfs = Stdfs::new();
+    for which in ["chmod_b", "chown_b"] {
+        for (sp, kind) in &spellings {
+            let case = || J::obj([("part", J::s("deferred-builder")), ("call", J::s(format!("{}({:?}); set_cwd(<SB>/b); exec()", which, sp.replace(&sbr, "<SB>")))), ("spelling", J::s(*kind))]);
+            // ---- Memfs
+            let mem0 = match materialize_memfs(&st, &sbr) {
+                Ok(m) => m,
+                Err(e) => {
+                    w.vio("C05 setup", || e.clone(), || J::Null);
+                    return;
+                },
+            };
+            mem0.set_cwd(&cwd1).expect("memfs cwd");
+            let a = apply(&mem0, &Op::Abs(sp.clone()));
+            let (m1, m2) = (mem0.verif_deep_clone(), mem0.verif_deep_clone());
+            let d1 = deferred_run(&m1, which, sp, &|| {
+                m1.set_cwd(&cwd2).expect("cwd2");
+            });
+            w.count("deferred_builder_cases", 1);
+            if !a.ok {
+                if d1.created.is_ok() || d1.created.as_ref().err() != Some(&a.err) {
+                    w.vio(&format!("C05 builder memfs {} accepts what abs() rejects [{}]", which, kind), || format!("abs({:?}) fails with {} but {}({:?}) gives {:?}", sp, a.brief(), which, sp, d1), case);
+                }
+            } else {
+                let d2 = deferred_run(&m2, which, &a.val, &|| {
+                    m2.set_cwd(&cwd2).expect("cwd2");
+                });
+                if d1 != d2 || m1.verif_dump() != m2.verif_dump() {
+                    w.vio(
+                        &format!("C05 builder memfs {} [{}]", which, kind),
+                        || format!("cwd <SB>/a: {}({:?}) then set_cwd(<SB>/b) then exec() gives {:?}, with abs() of the argument {:?}{}", which, sp.replace(&sbr, "<SB>"), d1, d2, if m1.verif_dump() != m2.verif_dump() { " (resulting states differ)" } else { "" }),
+                        case,
+                    );
+                }
+            }
+            // ---- Stdfs
+            if do_stdfs {
+                let run = |arg: &str| -> Option<(Deferred, Option<Tree>)> {
+                    sb.reset();
+                    materialize_disk(&st, &sbr).ok()?;
+                    std::env::set_current_dir(&cwd1).ok()?;
+                    let d = deferred_run(&stdfs, which, arg, &|| {
+                        std::env::set_current_dir(&cwd2).expect("cwd2");
+                    });
+                    let _ = std::env::set_current_dir(&sb.base);
+                    Some((d, observe_disk(&sbr).ok()))
+                };
+                sb.reset();
+                if materialize_disk(&st, &sbr).is_err() || std::env::set_current_dir(&cwd1).is_err() {
+                    w.count("machinery_setup_failures", 1);
+                    continue;
+                }
+                let a = apply(&stdfs, &Op::Abs(sp.clone()));
+                let _ = std::env::set_current_dir(&sb.base);
+                w.count("deferred_builder_cases_stdfs", 1);
+                match (a.ok, run(sp)) {
+                    (false, Some((d1, _))) => {
+                        if d1.created.is_ok() || d1.created.as_ref().err() != Some(&a.err) {
+                            w.vio(&format!("C05 builder stdfs {} accepts what abs() rejects [{}]", which, kind), || format!("abs({:?}) fails with {} but {}({:?}) gives {:?}", sp, a.brief(), which, sp, d1), case);
+                        }
+                    },
+                    (true, Some((d1, t1))) => match run(&a.val) {
+                        Some((d2, t2)) => {
+                            if d1 != d2 || t1 != t2 {
+                                w.vio(
+                                    &format!("C05 builder stdfs {} [{}]", which, kind),
+                                    || format!("cwd <SB>/a: {}({:?}) then chdir(<SB>/b) then exec() gives {:?}, with abs() of the argument {:?}{}", which, sp.replace(&sbr, "<SB>"), d1, d2, if t1 != t2 { " (resulting trees differ)" } else { "" }),
+                                    case,
+                                );
+                            }
+                        },
+                        None => w.count("machinery_setup_failures", 1),
+                    },
+                    _ => w.count("machinery_setup_failures", 1),
+                }
+            }
+        }
+    }
+}
+
 pub fn worker_spell(w: &mut WorkerCtx) {
     unsafe {
         libc::umask(0o022);
@@ -355,13 +492,22 @@ pub fn worker_spell(w: &mut WorkerCtx) {
     let stdfs = Stdfs::new();
     let do_stdfs = w.arg(0) != "memfs-only";
     let paths = ["/a", "/a/b", "/a/a/b", "/b", "/q", "/a/q", "/"];
+    if w.mine(0) {
+        deferred_builders(w, &sb, do_stdfs);
+    }
     let mut idx = 0u64;
     for (si, st0) in states().iter().enumerate() {
         let mut st = st0.clone();
         st.fix_link_kinds();
         // cwd = <SB>/a must exist as a directory in every state for relative spellings; states where
         // /a is not a directory use the sandbox root as cwd
-        let cwd_rel = if st.is_dir("/a") { "/a" } else { "/" };
+        let cwd_rel = if st.is_dir("/a/a") {
+            "/a/a"
+        } else if st.is_dir("/a") {
+            "/a"
+        } else {
+            "/"
+        };
         let cwd = reroot(&sbr, cwd_rel);
         let mem0 = match materialize_memfs(&st, &sbr) {
             Ok(m) => m,
@@ -378,13 +524,17 @@ pub fn worker_spell(w: &mut WorkerCtx) {
                     (Some(a), _) => a == p,
                     _ => true,
                 };
-                for (sp, kind) in spellings(p, &sbr) {
+                let target_pos = matches!(&op_t, Op::Symlink(_, t) if t == p);
+                for (sp, kind) in spellings(p, &sbr, &cwd) {
                     idx += 1;
                     if !w.mine(idx) {
                         continue;
                     }
-                    // relative spellings are relative to <SB>/a; skip them when that is not the cwd
-                    if cwd_rel != "/a" && matches!(kind, "relative" | "dot-relative" | "relative-dotdot") {
+                    // relative spellings need a cwd inside the sandbox below the root
+                    if cwd_rel == "/" && matches!(kind, "relative" | "dot-relative" | "relative-dotdot") {
+                        continue;
+                    }
+                    if target_pos && !sp.starts_with('/') {
                         continue;
                     }
                     let fixed = |q: &str| q.replace("/@", &sbr);
@@ -482,12 +632,15 @@ pub fn run(ctx: &Ctx) -> i32 {
     let cov = J::obj([
         ("evaluations", J::i(evals)),
         ("distinct_nontrivial", J::i(g.c("abs_ok") + g.c("spelling_pairs"))),
-        ("rule", J::s("part (i): every string over {/,.,a,b,~,:,é} up to the length bound plus all <=3-token compositions of expansion/protocol tokens, x 3 cwds x (HOME,V) settings, abs() on Memfs and Stdfs vs the string-level reference; non-trivial = abs succeeded. part (ii): every method x 7 paths x up to 12 spellings x 6 states, m(spelling) vs m(abs(spelling)) from identical states on Memfs and (re-materialised sandbox) Stdfs; all pairs non-trivial")),
+        ("rule", J::s("part (i): every string over {/,.,a,b,~,:,é} up to the length bound plus all <=3-token compositions of expansion/protocol tokens, x 3 cwds x (HOME,V) settings, abs() on Memfs and Stdfs vs the string-level reference; non-trivial = abs succeeded. part (ii): every method x 7 paths x up to 12 spellings x 6 states, m(spelling) vs m(abs(spelling)) from identical states on Memfs and (re-materialised sandbox) Stdfs; all pairs non-trivial. part (iii): chmod_b/chown_b builders created from 11 spellings with the cwd moved between the call and exec(), vs the builder created from abs(spelling)")),
         ("samples", J::Arr(g.samples.iter().take(4).cloned().collect())),
         ("abs_evaluations", J::i(g.c("abs_evaluations"))),
         ("abs_successful", J::i(g.c("abs_ok"))),
         ("spelling_pairs_memfs", J::i(g.c("spelling_pairs"))),
         ("spelling_pairs_stdfs", J::i(g.c("spelling_pairs_stdfs"))),
+        ("deferred_builder_cases_memfs", J::i(g.c("deferred_builder_cases"))),
+        ("deferred_builder_cases_stdfs", J::i(g.c("deferred_builder_cases_stdfs"))),
+        ("machinery_setup_failures", J::i(g.c("machinery_setup_failures"))),
         ("exhaustive", J::Bool(true)),
         ("bounds", J::s(format!("strings to length {}; cwds /, <SB>, <SB>/a/b; HOME/V settings {:?}", ctx.tier.pick(6, 8), combos))),
     ]);
